@@ -353,6 +353,7 @@ func (d *Driver) GenVC(key string, safety bool, lockCheck bool) (fvc *FuncVC) {
 		}
 	}
 	d.captureObligations(ex, fn, key)
+	d.aliasObligations(ex, fn, key)
 	o := vc.oblige("vacuity", key+"/vacuity:requires-satisfiable", "true", "false", "preconditions and invariants are jointly satisfiable", "", nil)
 	o.Expect = "sat"
 	results, out, retReach := ex.execFunction(fn, args, binds, st, "true", true, c)
